@@ -20,4 +20,10 @@ CHECKS = {
         note="Trusted: fake multiprocessing layer (cross-checked by the real SIGKILL tier); death mid-pipe-write is below the model's granularity; death after the sentinel was delivered only requires a complete output (DESIGN 7.3).",
         technique="TLC model checking with fault actions; lock-step replay of fault schedules; TLC trace validation; real SIGKILL runs",
     ),
+    "C15": dict(
+        text="GfaStore.tla is the GFA object as a state machine (AddNode/AddLink/DelNode with the code's side encoding and link-tag keys); TLC checks symmetry/no-dangling/delete-forgets on it and the self-consistency of the declarative decomposition (pairwise blocks = maximal biconnected subsets; every link in one block). A transition tour over every edge of the bounded state graph is executed on the real GFA object under several query-point masks; every simple graph on <=5/6 nodes and seeded random multigraphs are decomposed by the real code; TLC (Check_C15) folds each history through GfaStore!Apply and compares projections and query answers with RGFA.CompsOf/Decomp/Reach.",
+        ref="5 C15",
+        note="Trusted: TLC, the projection code in harness/props/c15.py. Bounds: histories over <=3 nodes, <=2-3 links, <=1 deletion; graphs <=6 nodes exhaustive, <=14 nodes random. biccs queried per component via graph_from_comp.",
+        technique="TLC model checking of GfaStore.tla; transition-tour replay into gaftools.gfa.GFA; TLC validation of recorded histories against declarative graph definitions",
+    ),
 }
